@@ -136,6 +136,48 @@ impl Scenario for S5a {
 
     fn generate(seed: u64, _run: u64, _prop: &'static str, tier: Tier) -> LossyCase {
         let mut g = Sm::new(seed);
+        if g.chance(1, 160) {
+            // long profiles: things that only exist after 2^16 windows or with 2^16 tracked elements
+            let mut stream: Vec<u64> = vec![];
+            let (width, epsilon, shape);
+            if g.chance(1, 2) {
+                // regime change after more than 65536 windows: distinct noise, then a new heavy hitter
+                // (width 1 has epsilon 1: nothing can ever exceed epsilon * n, so 2 and 3 it is)
+                let w = g.range(2, 3) as usize;
+                width = Some(w);
+                epsilon = 1.0 / w as f64;
+                let noise = 65_600 * w + g.usize(2_000);
+                for i in 0..noise {
+                    stream.push(1_000_000 + i as u64);
+                }
+                // the newcomer must end up above epsilon * n of the whole stream
+                let heavy = g.u64() | 1 << 40;
+                let tail = noise * 2 / (w - 1).max(1) / if w == 3 { 2 } else { 1 } + g.usize(20_000);
+                for i in 0..tail {
+                    stream.push(if g.chance(19, 20) { heavy } else { 5_000_000 + i as u64 });
+                }
+                shape = "regime-change-after-65536-windows";
+            } else {
+                // more than 65536 simultaneously tracked elements inside one huge window
+                if g.chance(1, 2) {
+                    let w = g.range(70_000, 150_000) as usize;
+                    width = Some(w);
+                    epsilon = 1.0 / w as f64;
+                } else {
+                    width = None;
+                    epsilon = *g.pick(&[1e-5, 1e-6]);
+                }
+                let distinct = g.range(66_000, 90_000);
+                for i in 0..distinct {
+                    stream.push(7_000_000 + i);
+                    if g.chance(1, 50) {
+                        stream.push(7_000_000 + g.below(i + 1));
+                    }
+                }
+                shape = "more-than-65536-tracked-elements";
+            }
+            return LossyCase { width, epsilon, shape: shape.into(), thresholds: vec![0.0, epsilon, 0.1, 0.5], stream, clear_at: 0 };
+        }
         let (width, epsilon) = if g.chance(2, 3) {
             // mostly narrow windows (many pruning ticks per stream), sometimes wide ones whose
             // reciprocal is not exactly representable
@@ -177,6 +219,10 @@ impl Scenario for S5a {
             let mut textbook: HashMap<u64, (usize, usize)> = HashMap::new();
             let mut n = 0usize;
             let short = case.stream.len() <= 300;
+            // long streams (more than 2^16 windows, or more than 2^16 tracked elements): per-step
+            // bookkeeping stays O(1), the full oracle runs at sampled prefixes only
+            let long = case.stream.len() > 20_000;
+            let stride = (case.stream.len() / 24).max(1);
             let mut pruned_last_tick: BTreeSet<u64> = BTreeSet::new();
             for (i, &e) in case.stream.iter().enumerate() {
                 step = i + 1;
@@ -192,7 +238,8 @@ impl Scenario for S5a {
                         return;
                     }
                 }
-                let tracked_before: BTreeSet<u64> = lc.query(0.0).collect();
+                let sampled = !long || i % stride == 0 || i + 1 == case.stream.len() || i < 64;
+                let tracked_before: BTreeSet<u64> = if sampled { lc.query(0.0).collect() } else { BTreeSet::new() };
                 let was_new = lc.add(e);
                 n += 1;
                 stats.steps += 1;
@@ -201,7 +248,7 @@ impl Scenario for S5a {
                     // an occurrence lands on the add right after the element was pruned
                     stats.fault("prune_tick_adjacent");
                 }
-                if was_new == tracked_before.contains(&e) {
+                if sampled && was_new == tracked_before.contains(&e) {
                     viol.push(v("C09", "lossycounter/add-return".into(), step,
                         format!("add({}) returned {}, but query(0) before the call {} it", e, was_new, if tracked_before.contains(&e) { "contained" } else { "did not contain" })));
                     return;
@@ -214,7 +261,13 @@ impl Scenario for S5a {
                 let b_current = (n + width - 1) / width;
                 textbook.entry(e).and_modify(|t| t.0 += 1).or_insert((1, b_current - 1));
                 let at_tick = n % width == 0;
-                if at_tick {
+                if at_tick && long {
+                    textbook.retain(|_, t| t.0 + t.1 > b_current);
+                    stats.probe("prune_tick");
+                    if b_current > 65_536 {
+                        stats.probe("more_than_65536_windows");
+                    }
+                } else if at_tick {
                     let before: BTreeSet<u64> = textbook.keys().cloned().collect();
                     textbook.retain(|_, t| t.0 + t.1 > b_current);
                     pruned_last_tick = before.into_iter().filter(|k| !textbook.contains_key(k)).collect();
@@ -225,7 +278,10 @@ impl Scenario for S5a {
                     }
                 }
                 let tick_adjacent = at_tick || n % width == 1 || (n + 1) % width == 0;
-                if !(short || tick_adjacent || i % 17 == 0 || i + 1 == case.stream.len()) {
+                if long && !sampled {
+                    continue;
+                }
+                if !long && !(short || tick_adjacent || i % 17 == 0 || i + 1 == case.stream.len()) {
                     continue;
                 }
                 stats.sig(at_tick as u64);
@@ -343,6 +399,27 @@ impl Scenario for S5b {
 
     fn generate(seed: u64, _run: u64, _prop: &'static str, tier: Tier) -> HeapCase {
         let mut g = Sm::new(seed);
+        if g.chance(1, 250) {
+            // a tracked element whose exact count passes 2^16 (2^17), then light elements compete
+            let hot = *g.pick(&[65_535usize, 65_536, 65_537, 70_000, 131_072]);
+            let k = g.range(1, 3) as usize;
+            let mut stream: Vec<u64> = vec![];
+            let lights = g.range(k as u64, k as u64 + 3);
+            // the light elements first (so that the heap is full), the hot one in the middle
+            for e in 1..=lights {
+                for _ in 0..g.range(1, 6) {
+                    stream.push(e);
+                }
+            }
+            let at = g.usize(stream.len() + 1);
+            let tail: Vec<u64> = stream.split_off(at);
+            stream.extend(std::iter::repeat(0u64).take(hot));
+            stream.extend(tail);
+            for _ in 0..g.range(10, 80) {
+                stream.push(1 + g.below(lights + 2));
+            }
+            return HeapCase { k, w: 1024, d: 4, shape: "counter-passes-2^16".into(), stream, clear_at: 0 };
+        }
         let k = if g.chance(1, 12) { g.range(30, 300) } else { g.range(1, 8) } as usize;
         let (w, d) = match g.below(10) {
             0 => (1, 1),
@@ -409,13 +486,19 @@ impl Scenario for S5b {
                 }
                 heap.add(e);
                 shadow.add(&e);
-                *truth.entry(e).or_insert(0) += 1;
+                let cnt = truth.entry(e).or_insert(0);
+                *cnt += 1;
+                if *cnt == 65_536 {
+                    stats.probe("count_passes_65536");
+                }
                 stats.steps += 1;
                 if heap.is_empty() {
                     viol.push(v("C10", "cmsheap/is_empty-after-add".into(), step, "is_empty() after an add".into()));
                     return;
                 }
-                if !(short || i % 7 == 0 || i + 1 == case.stream.len()) {
+                // long runs of one element: check where the element changes, otherwise every 7th prefix
+                let changes = i + 1 == case.stream.len() || case.stream[i + 1] != e;
+                if !(short || changes || i % 7 == 0) || (case.stream.len() > 20_000 && !changes && i % 1009 != 0) {
                     continue;
                 }
                 let items: Vec<u64> = heap.iter().collect();
